@@ -119,7 +119,7 @@ func init() {
 		},
 	}
 	Props["C17"] = PropDef{
-		Explanation: "R-WIRESYM; R-MARSHALER; T-DISPATCH; T-ARGKIND; T-OPTFLAG; T-FIELDCOVER; T-TAGS; T-SIGNED; R-GUARD string indexes and len-k bounds; R-TRUNC; T-OPTFLAG reader side; R-NOALIAS loop decode targets. Decided: Chat packet-field adapters are symmetric; the optional target is announced exactly when present and left nil by the reader when absent; a short form looks at every other field; converted struct variants share keys; array arguments are signed; a decode target that outlives a loop iteration is not copied out inside the loop; rendering indexes strings only behind length tests. Equality after a round trip and rendering output are not decided.",
+		Explanation: "R-WIRESYM; R-MARSHALER; T-DISPATCH; T-ARGKIND; T-OPTFLAG; T-FIELDCOVER; T-TAGS; T-SIGNED; R-GUARD string indexes and len-k bounds; R-TRUNC; T-OPTFLAG reader side; R-NOALIAS loop decode targets; T-FMTCODE plain mode removes every match of the code pattern and cleans string arguments (R-TLG case split on the mode flag). Decided: Chat packet-field adapters are symmetric; the optional target is announced exactly when present and left nil by the reader when absent; a short form looks at every other field; converted struct variants share keys; array arguments are signed; a decode target that outlives a loop iteration is not copied out inside the loop; rendering indexes strings only behind length tests. In plain mode every match of the formatting-code pattern is replaced by nothing and string translation arguments are cleaned. Equality after a round trip and the rest of the rendered output are not decided.",
 		Run: func(c *Ctx) []core.Ob {
 			obs := c.wireObs(func(p, t string) bool { return p == "chat" })
 			obs = append(obs, filterObs(c.MarshalerContract(), func(o core.Ob) bool { return strings.HasPrefix(o.Key, "chat") })...)
@@ -136,11 +136,12 @@ func init() {
 			obs = append(obs, c.ConvertedStructTags("chat")...)
 			obs = append(obs, c.SignedArrayTargets("chat")...)
 			obs = append(obs, c.LoopDecodeTargets("chat")...)
+			obs = append(obs, c.PlainRenderingRemovesCodes("chat")...)
 			return obs
 		},
 	}
 	Props["C19"] = PropDef{
-		Explanation: "R-SCHEMA; R-ORDER (stable sort, dispatch order and its callers, compression switch on both ends, offline UUID origin, drain-before-close); R-POOL; R-LENPREFIX; R-ERRFLOW; R-ERRAS errors.As target form; R-POOL put-after-retain; sorted insertion (sort.Search) accepted with a strict predicate; R-TLG over package bot (a received packet id indexes the handler table only inside both bounds); R-NILMAP maps in struct fields exist where a handler assigns into them. Decided: For each gate packet the receiver scans a prefix of what the sender marshals; both ends switch compression at the same frame for every threshold value; handler tables are kept in descending priority with ties in registration order (stable sort or strict sorted insertion); dispatch stops at the first error in every caller; queued packets survive Close; packet buffers are not recycled under a queued or retained packet; errors.As looks for the form in which the module creates the error; string lengths are byte lengths. The bot's own dispatch indexes its per-id table only with ids inside it, and maps a packet handler assigns into are made by the constructor. One known finding (registry-data layout). Join completion is not decided.",
+		Explanation: "R-SCHEMA; R-ORDER (stable sort, dispatch order and its callers, compression switch on both ends, offline UUID origin, drain-before-close); R-POOL; R-LENPREFIX; R-ERRFLOW; R-ERRAS errors.As target form; R-POOL put-after-retain; sorted insertion (sort.Search) accepted with a strict predicate; R-TLG over package bot (a received packet id indexes the handler table only inside both bounds); R-NILMAP maps in struct fields exist where a handler assigns into them; R-POOL handler-keeps-buffer (a handler does not queue a packet around the received pooled buffer). Decided: For each gate packet the receiver scans a prefix of what the sender marshals; both ends switch compression at the same frame for every threshold value; handler tables are kept in descending priority with ties in registration order (stable sort or strict sorted insertion); dispatch stops at the first error in every caller; queued packets survive Close; packet buffers are not recycled under a queued or retained packet; errors.As looks for the form in which the module creates the error; string lengths are byte lengths. The bot's own dispatch indexes its per-id table only with ids inside it, and maps a packet handler assigns into are made by the constructor. A handler does not queue a packet around the received pooled buffer. One known finding (registry-data layout). Join completion is not decided.",
 		Run: func(c *Ctx) []core.Ob {
 			obs := c.Schema()
 			obs = append(obs, c.HandlerSort()...)
@@ -151,6 +152,7 @@ func init() {
 			obs = append(obs, c.ReceiveBufferPerPacket()...)
 			obs = append(obs, c.PutAfterRetain("bot")...)
 			obs = append(obs, c.FieldMapUpdates("bot/...")...)
+			obs = append(obs, c.HandlerKeepsBuffer("bot/...")...)
 			// the bot's own dispatch on what the peer sent: indexes and sizes taken from a received packet
 			obs = append(obs, c.TLGObs(pkgPred("bot"), pkgPred("bot"), false)...)
 			obs = append(obs, c.Pools("net/packet")...)
@@ -169,6 +171,7 @@ func init() {
 			obs := c.Locks()
 			obs = append(obs, c.Pools("net/packet", "nbt", "nbt/dynbt", "level")...)
 			obs = append(obs, c.DrainBeforeClose("net/queue")...)
+			obs = append(obs, c.AssertToTypeParam("net/queue")...)
 			obs = append(obs, c.ReceiveBufferPerPacket()...)
 			obs = append(obs, c.CachedValuesImmutable("nbt", "nbt/dynbt", "net/packet", "level")...)
 			return obs
